@@ -2,7 +2,7 @@
 # usage: tools_try_seed.sh <patch.diff> [props...]  -- apply to a scratch copy, run quick checks, print verdict lines
 P=$1; shift
 D=$(mktemp -d /dev/shm/seedXXXX)
-cp -r /repo/eliot $D/ && (cd $D && patch -p1 -s < $P) || { echo "PATCH FAILED"; rm -rf $D; exit 3; }
+cp -r /repo/eliot /repo/docs /repo/README.rst /repo/setup.py $D/ && (cd $D && patch -p1 -s < $P) || { echo "PATCH FAILED"; rm -rf $D; exit 3; }
 IDS="$@"; [ -z "$IDS" ] && IDS="C01 C02 C03 C04 C05 C06 C07 C08 C09 C10 C11 C12 C13 C14 C15 C16 C17 C18 C19 C20"
 for i in $IDS; do
   out=$(cd /verif && ./bin/check $i quick --root $D --out $D/ev 2>&1); rc=$?
